@@ -30,17 +30,16 @@ META = dict(
          "restore_total_and_exact / live_restore_total_and_exact (for every entry state reachable from import and every "
          "well-nested finite command sequence incl. force=True switches, bad capacities, unknown flag names and nested "
          "contexts: no __enter__/__exit__ raises, every listed setting and the recursion_memos object are back to their "
-         "entry values, enclosing contexts untouched; the built-ins' whiteChars are back when they were in sync with the "
-         "default on entry), restore_exact (one context, arbitrary state inside), new_expr_after_exit, "
+         "entry values, every built-in's whiteChars is back, enclosing contexts untouched), restore_exact (one context, arbitrary state inside), new_expr_after_exit, "
          "packrat_lr_exclusive + packrat_lr_never_both + parse_selector_follows_packrat (each setter refuses while the "
          "other mode is on unless force=True; never both on, and _parse is the caching function exactly while packrat is "
          "on, after any history), enablePackrat_idempotent/_twice, users_untouched (no setting change and no context "
          "entry/exit touches an existing user expression). PARTIAL: default_ws_scope_partial speaks about the "
          "whiteChars/copyDefaultWhiteChars attributes (new expressions, copies, composites over existing expressions, "
          "built-ins, existing user expressions); that these attributes decide what an expression skips is checked on the "
-         "real parser by the oracle only. builtins_unsynced_not_restored proves that the pristine built-in line_start is "
-         "NOT restored when the default is changed inside a context (open known finding). Cache/memo contents are not "
-         "settings and are not modelled.",
+         "real parser by the oracle only. live_builtins_restored_though_unsynced: the pristine built-in line_start (own "
+         "set differs from the default) is changed inside and restored on exit (finding fixed by /repo e056afa). "
+         "Cache/memo contents are not settings and are not modelled.",
     note="Trusted: Lean kernel; axioms propext/Classical.choice/Quot.sound; the Settings transcription (tied to /repo by "
          "a differential run on every check: full raw state incl. object identity of the cache/memo tables after every "
          "command of random and exhaustive histories) and the class data regenerated from the live package into "
@@ -56,7 +55,7 @@ THEOREMS = [NS + t for t in (
     "restore_exact",
     "restore_total_and_exact",
     "live_restore_total_and_exact",
-    "builtins_unsynced_not_restored",
+    "live_builtins_restored_though_unsynced",
     "packrat_lr_exclusive",
     "packrat_lr_never_both",
     "live_packrat_lr_never_both",
@@ -70,7 +69,6 @@ THEOREMS = [NS + t for t in (
 
 GEN_REL = "PPProofs/Props/Gen/Settings.lean"
 LIT_CLASSES = ["Literal", "Suppress", "CaselessLiteral", "Keyword", "CaselessKeyword"]
-KNOWN_SIG = "unsynced_builtin_whitechars_not_restored"
 CORPUS = common.VERIF / "corpus" / "C19"
 
 
@@ -394,11 +392,6 @@ def _worker(case):
 # =================================================================================================
 # oracle: the theorem statements, on real snapshots
 # =================================================================================================
-def _synced_flags(snap):
-    w = "".join(sorted(set(snap[I_WS]))) if isinstance(snap[I_WS], str) else None
-    return [b[1] is not True or b[0] == w for b in snap[I_BUILTINS]]
-
-
 def oracle(W, case, entry, tr, probes=None):
     """returns list of problems: dict(atom=<class of failure>, at=<command index>, expected=..., actual=..., theorem=...)"""
     probs = []
@@ -419,9 +412,6 @@ def oracle(W, case, entry, tr, probes=None):
             add("parse-function-inconsistent-with-packrat-flag", i, "_parse is _parseCache exactly while packrat is enabled",
                 {"_parse": snap[I_PSEL], "_packratEnabled": snap[I_PK], "left_recursion": snap[I_LR]},
                 "parse_selector_follows_packrat")
-        if not isinstance(c, str) and c[0] == "setws":
-            for fr in stack:
-                fr[1] = True
         if probes is not None:
             lit, kw, ws = probes[i]
             if snap[I_LIT] < len(LIT_CLASSES) and lit != LIT_CLASSES[snap[I_LIT]]:
@@ -435,12 +425,12 @@ def oracle(W, case, entry, tr, probes=None):
             if err != "ok":
                 add(f"enter-raises:{err}", i, "no exception from __enter__", err, "restore_total_and_exact")
             else:
-                stack.append([prev, False])
+                stack.append(prev)
             if snap != prev:
                 add("enter-changes-state", i, "save() changes nothing", "state changed", "restore_total_and_exact")
         elif c == "exit":
             if stack:
-                ent, ws_changed_inside = stack.pop()
+                ent = stack.pop()
                 if err != "ok":
                     add(f"exit-raises:{err}", i, "no exception from __exit__", err, "restore_total_and_exact")
                 else:
@@ -448,10 +438,8 @@ def oracle(W, case, entry, tr, probes=None):
                     for k in o_ent:
                         if o_ent[k] != o_now[k]:
                             add(f"not-restored:{k}", i, {k: o_ent[k]}, {k: o_now[k]}, "restore_total_and_exact")
-                    sy = _synced_flags(ent)
                     for j, (b0, b1) in enumerate(zip(ent[I_BUILTINS], snap[I_BUILTINS])):
-                        # known finding region: built-in not in sync on entry AND the default was set inside
-                        if b0 != b1 and (sy[j] or not ws_changed_inside):
+                        if b0 != b1:
                             add("not-restored:builtin-whiteChars", i, {"builtin": str(W.builtins[j]), "value": b0},
                                 {"builtin": str(W.builtins[j]), "value": b1}, "restore_total_and_exact")
                             break
@@ -790,18 +778,6 @@ def shrink(case, atom, budget=200):
 # =================================================================================================
 # run
 # =================================================================================================
-def _is_known_witness_failure(W, entry):
-    """does the registered witness still fail the recorded way?"""
-    case = entry["witness"]
-    ent, tr, _ = run_real(W, case)
-    if not tr or str(tr[-1][1]) != "ok":
-        return False, None
-    sy = _synced_flags(ent)
-    bad = [(str(W.builtins[j]), b0, b1) for j, (b0, b1) in enumerate(zip(ent[I_BUILTINS], tr[-1][0][I_BUILTINS]))
-           if b0 != b1 and not sy[j]]
-    return bool(bad), bad
-
-
 def run(ctx):
     W = world()
     W.hard_reset()
@@ -812,10 +788,9 @@ def run(ctx):
         "(45% mode setters incl. force=True and bad capacities, other setters incl. unknown flag names, expression "
         "new/copy/composite/set_whitespace_chars, nested enter/exit to depth 4) wrapped in a context; malformed stream = "
         "unbalanced enter/exit; exhaustive stream = 5 mode entry configurations x all sequences up to length L over "
-        "10 mode commands; non-trivial = the body changes at least one observable setting; built-ins that are not in "
-        "sync with the default at context entry (pristine line_start) are excluded from the restore oracle for blocks "
-        "inside which set_default_whitespace_chars is called "
-        f"(known finding {KNOWN_SIG}; its registered witness is replayed from the corpus)"
+        "10 mode commands; non-trivial = the body changes at least one observable setting; every built-in's whiteChars "
+        "is compared at every context exit (the witness of the fixed finding unsynced_builtin_whitechars_not_restored "
+        "runs from the corpus as an ordinary regression case)"
     )
     ctx.assumptions.append(
         "C19: cache/memo contents are not settings and are not modelled; whitespace *skipping* behaviour is "
@@ -829,14 +804,6 @@ def run(ctx):
         for f in sorted(CORPUS.glob("*.json")):
             d = json.loads(f.read_text())
             corpus_cases.append(d["case"] if "case" in d else d)
-    for e in ctx.known_entries:
-        if e.get("status") == "open" and e.get("signature") == KNOWN_SIG:
-            still, bad = _is_known_witness_failure(W, e)
-            if still:
-                ctx.fail_input("built-in whiteChars not restored", e["witness"], "built-in whiteChars as on entry", bad,
-                               theorem=NS + "builtins_unsynced_not_restored", signature=KNOWN_SIG)
-            ctx.count_cases("known-finding-witness", 1, outcomes={"still-fails" if still else "no-longer-fails": 1})
-
     # ---- cases ------------------------------------------------------------------------------------------
     rng = ctx.subrng("histories")
     streams = [
@@ -938,8 +905,6 @@ def replay(data):
     if isinstance(case, dict) and "cmds" in case:
         atom = data.get("kind")
         probs = problems_of({"setup": case.get("setup", []), "cmds": case["cmds"]})
-        if data.get("signature") == KNOWN_SIG:
-            return _is_known_witness_failure(W, {"witness": case})[0]
         return any(p["atom"] == atom for p in probs) if atom else bool(probs)
     ctx = common.Ctx("C19", "quick", data.get("seed", 0))
     run(ctx)
